@@ -283,7 +283,10 @@ def can_dyn_harness_source(schema: Schema, structs: list) -> str:
                     '#include "can_dynamic_schema.h"'])
     out.append('using json = nlohmann::json;')
     gen = _json_builders(schema, out)
-    fns = [gen(("struct", sn)) for sn in structs]
+    # entries are struct names (binding named after its struct) or (binding name, struct) pairs
+    structs = [(x, x) if isinstance(x, str) else (x[0], x[1]) for x in structs]
+    fns = [gen(("struct", st)) for _, st in structs]
+    structs = [bn for bn, _ in structs]
     out.append('extern "C" void* dyn_load(const char* bin, unsigned long n) { auto* s = new fcp::dynamic::DynamicSchema(); '
                's->LoadBinarySchema(std::string(bin, n)); return s; }')
     out.append('static fcp::can::Can mk_can(void* sp) { if (sp) return fcp::can::Can{std::make_shared<fcp::can::CanDynamicSchema>('
